@@ -59,4 +59,23 @@ theorem go_whole_append (log : Bytes) (rest : Bytes) (cur : Bytes) (h : log = []
           rw [ih (x :: cur) (Or.inr hl)]
           simp [hxs]
 
+theorem go_noNl (frag cur : Bytes) (h : ∀ x ∈ frag, x ≠ 10) : linesOf.go frag cur = [] := by
+  induction frag generalizing cur with
+  | nil => simp [linesOf.go]
+  | cons x xs ih =>
+    have hx : x ≠ 10 := h x (by simp)
+    simp only [linesOf.go, hx, ↓reduceIte]
+    exact ih (x :: cur) (fun y hy => h y (by simp [hy]))
+
+/-- **A frame whose append is in flight is invisible to a reader**: whatever prefix of its body (no
+newline yet) is already in the file behind a log of whole lines, the lines a reader gets are those
+of the log before the append began. -/
+theorem linesOf_inflight (log frag : Bytes) (hw : WholeLines log) (hf : NoNl frag) :
+    linesOf (log ++ frag) = linesOf log := by
+  unfold linesOf
+  rw [go_whole_append log frag [] hw]
+  by_cases hl : log = []
+  · subst hl; simp [go_noNl frag [] hf, linesOf.go]
+  · simp [hl, go_noNl frag [] hf]
+
 end Rip.LogBytes
